@@ -34,6 +34,7 @@ RULE = (
     "distinct = distinct abstract trace signatures (op, metric, sampler class, method, faults fired, outcome class)."
      " Later rounds added: exception types for failing callbacks, re-entrant double bootstrap, mixed-identity / recycling / unhashable samplers, callable sampler x stratification flag, "
     "user subclasses (own metric, overridden metric), sources on a large offset, skewed / infinite / tuple- and list-valued / type-varying metrics, alpha from 1e-12 to 0.99, runaway guard."
+    " Round 14: the same bootstrap_ci call twice with 1100-1500 thresholds that agree at both ends and differ in the interior (2% of scenarios)."
 )
 COMPONENTS = {
     "real": ["Scores/GroupScores.bootstrap_metric, bootstrap_ci, bootstrap_sample, utils.bootstrap_ci (from /repo working tree)",
@@ -221,6 +222,20 @@ def generate(rnd, tier):
             builtin = "callable" not in sampler or sampler.get("callable") == "recording"
             op["faults"] = [gen_fault(rnd, "callable" in metric, "callable" in sampler, builtin) for _ in range(rnd.choice([1, 1, 2, 3]))]
         ops.append(op)
+    if rnd.random() < 0.02:
+        # the same call twice on one object with keyword arrays of more than a thousand thresholds that agree at both ends and
+        # differ in the interior: a point estimate (or anything else) memoised on an abbreviated key - repr(), the first and last
+        # elements, the shape - is stale in the second call
+        n_ = rnd.randint(1100, 1500)
+        a_ = [round(rnd.uniform(-7, 7), 2) for _ in range(n_)]
+        b_ = a_[:4] + [round(rnd.uniform(-7, 7), 2) for _ in range(n_ - 8)] + a_[-4:]
+        nm_ = rnd.choice(["tpr", "fnr", "tnr", "fpr"])
+        smp_ = rnd.choice([{"sampling_method": "replacement", "stratified_sampling": None},
+                           {"callable": "recording", "inner": {"sampling_method": "replacement", "stratified_sampling": None}}])
+        cfg_ = {"nb_samples": rnd.randint(4, 10), "bootstrap_method": rnd.choice(["bc", "bca"])}
+        for d_ in (a_, b_):
+            ops.append({"op": "bootstrap_ci", "metric": {"name": nm_, "kwargs": {"threshold": {"shape": [n_], "data": d_}}},
+                        "sampler": copy.deepcopy(smp_), "cfg": dict(cfg_), "alpha": 0.1})
     if not any(o["op"] != "reseed" for o in ops):
         ops.append({"op": "bootstrap_ci", "metric": {"name": "fnr", "kwargs": {"threshold": {"shape": [], "data": [0.0]}}},
                     "sampler": {"callable": "identity"}, "cfg": {"nb_samples": 5, "bootstrap_method": "bca"}, "alpha": 0.05})
